@@ -26,6 +26,8 @@ mod c04;
 mod c05;
 mod c06;
 mod c10;
+mod c15;
+mod c18;
 mod c19;
 
 use report::{Report, Tier};
@@ -49,6 +51,8 @@ fn checks() -> Vec<Check> {
         Check { id: "C05", level: "exploration", run: c05::run, replay: c05::replay },
         Check { id: "C06", level: "exploration", run: c06::run, replay: c06::replay },
         Check { id: "C10", level: "fault_enumeration", run: c10::run, replay: c10::replay },
+        Check { id: "C15", level: "exploration", run: c15::run, replay: c15::replay },
+        Check { id: "C18", level: "exploration", run: c18::run, replay: c18::replay },
         Check { id: "C19", level: "exploration", run: c19::run, replay: c19::replay },
     ]
 }
